@@ -137,6 +137,12 @@ fn local_cases(s: &Summary) -> Vec<(String, serde_json::Value, bool)> {
     }).collect()
 }
 
+fn dist_of(id: &str, key: &[u8; 32]) -> [u8; 32] {
+    let k = dht_key_of(id); let mut d = [0u8; 32];
+    for i in 0..32 { d[i] = k[i] ^ key[i]; }
+    d
+}
+
 async fn run_world(mut rng: Rng, wi: u64) -> anyhow::Result<Summary> {
     let rng = &mut rng;
     let mut local = Summary::default();
@@ -150,8 +156,13 @@ async fn run_world(mut rng: Rng, wi: u64) -> anyhow::Result<Summary> {
     let m = spawn_node(&net, &name, maddr, timeout, 8).await?;
     let n = match rng.below(6) { 0 => rng.range(1, 4), 1..=3 => rng.range(5, 25), _ => rng.range(26, 60) } as usize;
     let topo = rng.below(5);
+    // every fourth world: all peers behind ONE IP address (different ports): the routing table's per-IP limit then
+    // admits only the first, the others are known to the node as connected peers only
+    let one_ip = wi % 4 == 3;
     let mut peers: Vec<Peer> = (0..n).map(|i| Peer {
-        id: hex::encode(rng.bytes(32)), addr: format!("10.{}.{}.1:9000", 1 + i / 200, 1 + i % 200), knows: vec![], class: Class::Honest }).collect();
+        id: hex::encode(rng.bytes(32)),
+        addr: if one_ip { format!("10.77.77.1:{}", 9000 + i) } else { format!("10.{}.{}.1:9000", 1 + i / 200, 1 + i % 200) },
+        knows: vec![], class: Class::Honest }).collect();
     for i in 0..n {
         let knows: Vec<usize> = match topo {
             0 => (0..n).filter(|&j| j != i).collect(),                                   // full mesh
@@ -205,10 +216,29 @@ async fn run_world(mut rng: Rng, wi: u64) -> anyhow::Result<Summary> {
     let mut init_idx = reachable.clone();
     rng.shuffle(&mut init_idx);
     init_idx.truncate(match rng.below(4) { 0 => 1, 1 => 3, 2 => 9, _ => 24 }.min(reachable.len()));
-    for &i in &init_idx { let _ = m.transport.connect_peer(&world.peers[i].addr).await; }
+    let mut connected0: Vec<usize> = vec![];
+    for &i in &init_idx { if m.transport.connect_peer(&world.peers[i].addr).await.is_ok() { connected0.push(i); } }
     let want = init_idx.len();
     let mg = m.manager.clone();
     wait_until(|| { let mg = mg.clone(); async move { mg.get_connected_peers().await.len() >= want } }, Duration::from_secs(3)).await;
+    // every second world: some of those connections are lost and come back before the first lookup
+    // (connected -> disconnected -> connected: the peer is known and connected again)
+    let mut reconnected = 0u64;
+    if wi % 2 == 1 {
+        for &i in &connected0 {
+            if !rng.chance(1, 2) { continue; }
+            let p = &world.peers[i];
+            m.transport.verif_mark_disconnected(&p.id).await;
+            tokio::time::sleep(Duration::from_millis(25)).await;
+            if let Ok(sa) = p.addr.parse::<SocketAddr>() { m.transport.verif_register_incoming(&p.id, sa).await; reconnected += 1; }
+        }
+        if reconnected > 0 {
+            sum.add("connections_lost_and_restored", reconnected);
+            tokio::time::sleep(Duration::from_millis(150)).await;
+            let mg = m.manager.clone();
+            wait_until(|| { let mg = mg.clone(); async move { mg.get_connected_peers().await.len() >= want } }, Duration::from_millis(800)).await;
+        }
+    }
 
     // pid table
     let mut pid: HashMap<String, u64> = HashMap::new();
@@ -230,7 +260,30 @@ async fn run_world(mut rng: Rng, wi: u64) -> anyhow::Result<Summary> {
             _ => { let b = rng.bytes(32); let mut k = [0u8; 32]; k.copy_from_slice(&b); k }
         };
         let count = *rng.pick(&[1usize, 3, 8, 8, 16, 20]);
-        let init = m.manager.find_closest_nodes_local(&key, count).await;
+        let mut init = m.manager.find_closest_nodes_local(&key, count).await;
+        // "learned of from its own tables": before the first lookup every peer the node is connected to is a
+        // candidate - it is among the lookup's starting nodes unless `count` nearer ones are
+        if li == 0 {
+            // the events of the history above are handled asynchronously: a peer counts as missing only if it stays missing
+            let mut missing: Option<(usize, usize)> = None;
+            for attempt in 0..4 {
+                let cur = if attempt == 0 { init.clone() } else {
+                    tokio::time::sleep(Duration::from_millis(300)).await;
+                    m.manager.find_closest_nodes_local(&key, count).await };
+                let far = cur.last().map(|x| dist_of(&x.peer_id, &key));
+                missing = connected0.iter().copied().find(|&i| {
+                    let p = &world.peers[i];
+                    !cur.iter().any(|x| x.peer_id == p.id) && !(cur.len() >= count && far.map(|f| dist_of(&p.id, &key) > f).unwrap_or(false))
+                }).map(|i| (i, cur.len()));
+                if attempt > 0 { init = cur; }
+                if missing.is_none() { break; }
+            }
+            if let Some((i, have)) = missing {
+                sum.violation(*id, "a connected peer is missing from the lookup's own starting nodes although fewer than `count` nearer peers are known", &[],
+                    json!({"world": wi, "peer": &world.peers[i].id[..8], "connected_peers": connected0.len(), "starting_nodes": have, "count": count,
+                           "connections_lost_and_restored": reconnected, "all_peers_behind_one_ip": one_ip}));
+            }
+        }
         net.take_trace();
         let res = match tokio::time::timeout(Duration::from_secs(30), m.manager.find_closest_nodes(&key, count)).await {
             Ok(Ok(r)) => r,
